@@ -222,3 +222,17 @@ pub proof fn lemma_scan_init(log: Seq<(Seq<char>, Block)>, d: Seq<u8>, f: int, i
 {
     reveal(path_ok); reveal(log_sound); reveal(log_ordered); reveal(log_complete);
 }
+
+// ---- end of startup_chore: the deletion checks for the files seen and the allocator's fast-forward
+// BlockAllocator::fast_forward (unit core_trackers) as a ghost log of the ids it was called with
+pub struct AllocFF { pub ff: Ghost<Seq<u64>> }
+impl AllocFF {
+    #[verifier::external_body]
+    pub fn fast_forward(&mut self, next_id: u64) ensures final(self).ff@ == old(self).ff@.push(next_id) { unimplemented!() }
+}
+// `for f in seen_files.into_iter() { flush_check(f); }` (std HashSet iterator; flush_check: unit core_trackers)
+pub struct SeenH { pub x: u8 }
+impl TrackersH {
+    #[verifier::external_body]
+    pub fn flush_check_all(&mut self, seen: SeenH) ensures final(self).registered == old(self).registered, final(self).added == old(self).added { unimplemented!() }
+}
